@@ -222,10 +222,10 @@ def case_subins(cls, params, rec):
 		if fn == "insert" and p > L - m:
 			rec.refusal(cls + ":insert-near-end", params, repr(val)[:200])
 			return
-		if params.get("startkind") == "tensor0d":
-			# a 0-d tensor is not a documented kind of position: refusing it
-			# is in order, mis-using it is not
-			rec.refusal(cls + ":tensor-position", params, repr(val)[:200])
+		if params.get("startkind", "int") != "int":
+			# only Python ints are documented positions: refusing another
+			# kind of object is in order, mis-using it is not
+			rec.refusal(cls + ":non-int-position", params, repr(val)[:200])
 			return
 		rec.violation(cls, params, {"what": "%s raised for a span inside the "
 			"sequence" % fn, "L": L, "m": m, "start": p,
@@ -406,8 +406,8 @@ def case_multi(cls, params, rec):
 			rec.bulk_held(cls, B, B, sample=params)
 		return
 	if st == "raise":
-		if params.get("startkind") == "tensor0d" and start is not None:
-			rec.refusal(cls + ":tensor-position", params, repr(val)[:200])
+		if params.get("startkind", "int") != "int" and start is not None:
+			rec.refusal(cls + ":non-int-position", params, repr(val)[:200])
 			return
 		rec.violation(cls, params, {"what": "multisubstitute raised although "
 			"every motif fits", "L": L, "start": start, "lens": lens,
